@@ -360,3 +360,54 @@ package consensus
 //@   invariant loop#8 @sf !overflow && 0 <= k && k < len(txn.SiafundOutputs) ==> txn.SiafundOutputs[k].Value <= 10000
 //@   ensures @O1-total result == nil ==> v1Total(txn) < types.M128
 //@   ensures @O1-siafunds result == nil && 0 <= k && k < len(txn.SiafundOutputs) ==> txn.SiafundOutputs[k].Value <= 10000
+
+// ------------------------------------------------------------ validation.go: v1 file contracts
+
+// assumed property of FileContractTax (math/big; 3.9% rounded down): never exceeds the payout
+//@ func (State).FileContractTax
+//@   trusted
+//@   ensures types.u128(result) <= types.u128(fc.Payout)
+
+// outputSum closure
+//@ func validateFileContracts$1
+//@   prop C07 C01 C10
+//@   requires forall j in 0..len(outputs)+1 :: sumSCO(outputs, j) < types.M128
+//@   invariant loop#1 @sum types.u128(sum) == sumSCO(outputs, $n)
+//@   invariant loop#1 @no-overflow $n < len(outputs) ==> sumSCO(outputs, $n + 1) < types.M128
+//@   ensures @sum types.u128(sum) == sumSCO(outputs, len(outputs))
+
+// the Merkle-root closure of storage proof validation (hashing; C07 [B])
+//@ func validateFileContracts$4
+//@   abstract
+
+//@ spec v1fcSumsOK(fc types.FileContract) bool = (forall j in 0..len(fc.ValidProofOutputs)+1 :: sumSCO(fc.ValidProofOutputs, j) < types.M128) && (forall j in 0..len(fc.MissedProofOutputs)+1 :: sumSCO(fc.MissedProofOutputs, j) < types.M128)
+
+//@ func validateFileContracts
+//@   prop C07 C08 C02 C03 C01 C10
+//@   requires ms.base.Network != nil && msWF(*ms)
+//@   requires forall i in 0..len(txn.FileContracts) :: v1fcSumsOK(txn.FileContracts[i]) && sumSCO(txn.FileContracts[i].ValidProofOutputs, len(txn.FileContracts[i].ValidProofOutputs)) + types.u128(txn.FileContracts[i].Payout) < types.M128
+//@   requires forall i in 0..len(txn.FileContractRevisions) :: v1fcSumsOK(txn.FileContractRevisions[i].FileContract)
+//@   requires forall i in 0..len(txn.FileContractRevisions) :: ms.fileContractElement(ts, txn.FileContractRevisions[i].ParentID).1 ==> v1fcSumsOK(ms.fileContractElement(ts, txn.FileContractRevisions[i].ParentID).0.FileContract)
+//@   ghost k int
+//@   ghost l int
+//@   let fc = txn.FileContracts[k]
+//@   let rev = txn.FileContractRevisions[k]
+//@   let par = ms.fileContractElement(ts, txn.FileContractRevisions[k].ParentID)
+//@   let sp = txn.StorageProofs[k]
+//@   invariant loop#1 @contracts 0 <= k && k < $n ==> txn.FileContracts[k].WindowStart >= cheight(ms.base) && txn.FileContracts[k].WindowEnd > txn.FileContracts[k].WindowStart && sumSCO(txn.FileContracts[k].ValidProofOutputs, len(txn.FileContracts[k].ValidProofOutputs)) == sumSCO(txn.FileContracts[k].MissedProofOutputs, len(txn.FileContracts[k].MissedProofOutputs)) && types.u128(txn.FileContracts[k].Payout) == sumSCO(txn.FileContracts[k].ValidProofOutputs, len(txn.FileContracts[k].ValidProofOutputs)) + types.u128(ms.base.FileContractTax(txn.FileContracts[k]))
+//@   invariant loop#2 @valid-sum types.u128(validSum) == sumSCO(fc.ValidProofOutputs, $n)
+//@   invariant loop#2 @no-overflow $n < len(fc.ValidProofOutputs) ==> sumSCO(fc.ValidProofOutputs, $n + 1) < types.M128
+//@   invariant loop#3 @missed-sum types.u128(missedSum) == sumSCO(fc.MissedProofOutputs, $n) && types.u128(validSum) == sumSCO(fc.ValidProofOutputs, len(fc.ValidProofOutputs))
+//@   invariant loop#3 @no-overflow $n < len(fc.MissedProofOutputs) ==> sumSCO(fc.MissedProofOutputs, $n + 1) < types.M128
+//@   invariant loop#6 @j-lower j >= $n5 + 1
+//@   invariant loop#4 @contracts-done 0 <= k && k < len(txn.FileContracts) ==> txn.FileContracts[k].WindowStart >= cheight(ms.base) && txn.FileContracts[k].WindowEnd > txn.FileContracts[k].WindowStart && sumSCO(txn.FileContracts[k].ValidProofOutputs, len(txn.FileContracts[k].ValidProofOutputs)) == sumSCO(txn.FileContracts[k].MissedProofOutputs, len(txn.FileContracts[k].MissedProofOutputs)) && types.u128(txn.FileContracts[k].Payout) == sumSCO(txn.FileContracts[k].ValidProofOutputs, len(txn.FileContracts[k].ValidProofOutputs)) + types.u128(ms.base.FileContractTax(txn.FileContracts[k]))
+//@   invariant loop#4 @revisions 0 <= k && k < $n ==> txn.FileContractRevisions[k].UnlockConditions.Timelock <= cheight(ms.base) && txn.FileContractRevisions[k].FileContract.WindowStart >= cheight(ms.base) && txn.FileContractRevisions[k].FileContract.WindowEnd > txn.FileContractRevisions[k].FileContract.WindowStart && !has(ms.spends, txn.FileContractRevisions[k].ParentID) && ms.fileContractElement(ts, txn.FileContractRevisions[k].ParentID).1 && ms.fileContractElement(ts, txn.FileContractRevisions[k].ParentID).0.FileContract.WindowStart >= cheight(ms.base) && txn.FileContractRevisions[k].FileContract.RevisionNumber > ms.fileContractElement(ts, txn.FileContractRevisions[k].ParentID).0.FileContract.RevisionNumber && txn.FileContractRevisions[k].UnlockConditions.UnlockHash() == ms.fileContractElement(ts, txn.FileContractRevisions[k].ParentID).0.FileContract.UnlockHash && sumSCO(txn.FileContractRevisions[k].FileContract.ValidProofOutputs, len(txn.FileContractRevisions[k].FileContract.ValidProofOutputs)) == sumSCO(ms.fileContractElement(ts, txn.FileContractRevisions[k].ParentID).0.FileContract.ValidProofOutputs, len(ms.fileContractElement(ts, txn.FileContractRevisions[k].ParentID).0.FileContract.ValidProofOutputs)) && sumSCO(txn.FileContractRevisions[k].FileContract.MissedProofOutputs, len(txn.FileContractRevisions[k].FileContract.MissedProofOutputs)) == sumSCO(ms.fileContractElement(ts, txn.FileContractRevisions[k].ParentID).0.FileContract.MissedProofOutputs, len(ms.fileContractElement(ts, txn.FileContractRevisions[k].ParentID).0.FileContract.MissedProofOutputs))
+//@   ensures @F1-window result == nil && 0 <= k && k < len(txn.FileContracts) ==> fc.WindowStart >= cheight(ms.base) && fc.WindowEnd > fc.WindowStart
+//@   ensures @B3-valid-equals-missed result == nil && 0 <= k && k < len(txn.FileContracts) ==> sumSCO(fc.ValidProofOutputs, len(fc.ValidProofOutputs)) == sumSCO(fc.MissedProofOutputs, len(fc.MissedProofOutputs))
+//@   ensures @B4-tax-equation result == nil && 0 <= k && k < len(txn.FileContracts) ==> types.u128(fc.Payout) == sumSCO(fc.ValidProofOutputs, len(fc.ValidProofOutputs)) + types.u128(ms.base.FileContractTax(fc))
+//@   ensures @F2-revision-windows result == nil && 0 <= k && k < len(txn.FileContractRevisions) ==> rev.UnlockConditions.Timelock <= cheight(ms.base) && rev.FileContract.WindowStart >= cheight(ms.base) && rev.FileContract.WindowEnd > rev.FileContract.WindowStart && par.1 && par.0.FileContract.WindowStart >= cheight(ms.base)
+//@   ensures @U1-revision-parent-unresolved result == nil && 0 <= k && k < len(txn.FileContractRevisions) ==> !has(ms.spends, rev.ParentID)
+//@   ensures @F6-revision-number result == nil && 0 <= k && k < len(txn.FileContractRevisions) ==> rev.FileContract.RevisionNumber > par.0.FileContract.RevisionNumber
+//@   ensures @K1-revision-unlock-hash result == nil && 0 <= k && k < len(txn.FileContractRevisions) ==> rev.UnlockConditions.UnlockHash() == par.0.FileContract.UnlockHash
+//@   ensures @B5-revision-sums result == nil && 0 <= k && k < len(txn.FileContractRevisions) ==> sumSCO(rev.FileContract.ValidProofOutputs, len(rev.FileContract.ValidProofOutputs)) == sumSCO(par.0.FileContract.ValidProofOutputs, len(par.0.FileContract.ValidProofOutputs)) && sumSCO(rev.FileContract.MissedProofOutputs, len(rev.FileContract.MissedProofOutputs)) == sumSCO(par.0.FileContract.MissedProofOutputs, len(par.0.FileContract.MissedProofOutputs))
+//@   ensures @X1-proofs-exclusive result == nil && len(txn.StorageProofs) > 0 ==> len(txn.SiacoinOutputs) == 0 && len(txn.SiafundOutputs) == 0 && len(txn.FileContracts) == 0 && len(txn.FileContractRevisions) == 0
